@@ -54,60 +54,24 @@ class C15(Check):
         succ = [r for r in walk_no_nested(fn) if isinstance(r, ast.Return) and r.value is not None and "TimeCourse(" in norm(r.value)]
         if not succ:
             raise AnalysisError(f"{q}: no success return")
-        for r in succ:
-            ok = False
-            for t, pol in sc.guards(r):
-                if isinstance(t, ast.Compare) and len(t.ops) == 1 and pol and isinstance(t.ops[0], (ast.Lt, ast.LtE)) \
-                        and "norm(" in norm(t.left) and norm(t.comparators[0]) == "tolerance":
-                    ok = True
-                    arg = norm(t.left)
-            if ok:
-                self.holds("Z1", rel, q, "success-under-convergence-test", r, f"returned only when `{arg} < tolerance`")
-            else:
-                rep("Z1", rel, q, "success-under-convergence-test", r,
-                    "a course is returned as steady state without the dominating test `norm(change) < tolerance`",
-                    witness="dx/dt = k (unbounded growth): simulate_to_steady_state() returns a state instead of NoSteadyState")
-        # change measured between consecutive iterates
-        diffs = [s for s in walk_no_nested(fn) if isinstance(s, ast.Assign) and norm(s.targets[0]) == "diff"]
-        if diffs:
-            d = norm(diffs[0].value).replace(" ", "")
-            forms = ("(y2-y1)/y1ifrel_normelsey2-y1", "(y[-1]-y[-2])/y[-1]ifrel_normelsey[-1]-y[-2]")
-            if d in forms:
-                self.holds("Z1", rel, q, "change-definition", diffs[0], f"diff = {norm(diffs[0].value)}")
-            else:
-                rep("Z1", rel, q, "change-definition", diffs[0], f"`{norm(diffs[0].value)}` is not the change between the last two iterates (absolute / relative by flag)",
-                    witness="convergence is declared against the wrong reference state")
+        if not confirmed:
+            for r in succ:
+                ok = False
+                for t, pol in sc.guards(r):
+                    if isinstance(t, ast.Compare) and len(t.ops) == 1 and pol and isinstance(t.ops[0], (ast.Lt, ast.LtE)) \
+                            and "norm(" in norm(t.left) and norm(t.comparators[0]) == "tolerance":
+                        ok = True
+                        arg = norm(t.left)
+                if ok:
+                    self.holds("Z1", rel, q, "success-under-convergence-test", r, f"returned only when `{arg} < tolerance`")
+                else:
+                    rep("Z1", rel, q, "success-under-convergence-test", r,
+                        "a course is returned as steady state without the dominating test `norm(change) < tolerance`",
+                        witness="dx/dt = k (unbounded growth): simulate_to_steady_state() returns a state instead of NoSteadyState")
+        if confirmed:
+            self.z1_paths(rel, q, fn)
         else:
-            self.undecided_ob("Z1", rel, q, "change-definition", fn, "definition of the change not recognised")
-        loops = [s for s in strip_docstring(fn.body) if isinstance(s, (ast.For, ast.While))] + \
-                [s2 for s in strip_docstring(fn.body) if isinstance(s, ast.Try) for s2 in s.body if isinstance(s2, ast.For)]
-        if loops and "y1" in norm(fn):
-            adv = [s for s in loops[0].body if isinstance(s, ast.Assign) and norm(s) == "y1 = y2"]
-            stepped = [s for s in loops[0].body if isinstance(s, ast.AugAssign) and norm(s.target) == "t" and isinstance(s.op, ast.Add)]
-            if adv and stepped:
-                self.holds("Z1", rel, q, "iterate-advanced", adv[0], "y1 := y2 and t += step every iteration")
-            else:
-                rep("Z1", rel, q, "iterate-advanced", loops[0], "the reference iterate / the time is not advanced each step: convergence is tested against a stale state",
-                    witness="any model: the first small step relative to the INITIAL state never occurs, or the same time is integrated repeatedly")
-        # Z3: aliasing of the stepper's output buffer
-        COPY = ("np.array", "numpy.array", "np.copy", "copy.deepcopy", "copy.copy", "np.asarray_chkfinite", "list", "tuple")
-        cur_assign = [s for s in walk_no_nested(fn) if isinstance(s, ast.Assign) and isinstance(s.targets[0], ast.Name)
-                      and any(isinstance(c, ast.Call) and isinstance(c.func, ast.Attribute) and c.func.attr == "integrate" and not norm(c.func.value).startswith("self") for c in ast.walk(s.value))]
-        if cur_assign and "y1" in norm(fn):
-            a = cur_assign[0]
-            cur = a.targets[0].id
-            v = a.value
-            copied_at_source = isinstance(v, ast.Call) and (norm(v.func) in COPY or (isinstance(v.func, ast.Attribute) and v.func.attr == "copy"))
-            carry = [s for s in walk_no_nested(fn) if isinstance(s, ast.Assign) and isinstance(s.value, (ast.Name, ast.Call)) and isinstance(s.targets[0], ast.Name)
-                     and cur in {n.id for n in ast.walk(s.value) if isinstance(n, ast.Name)} and s is not a and s.targets[0].id != cur]
-            copied_at_carry = bool(carry) and all(isinstance(s.value, ast.Call) and (norm(s.value.func) in COPY or (isinstance(s.value.func, ast.Attribute) and s.value.func.attr == "copy")) for s in carry)
-            if copied_at_source or copied_at_carry:
-                self.holds("Z3", rel, q, "previous-iterate-is-a-copy", a, f"`{norm(a)[:70]}`" + (" copies the stepper's output" if copied_at_source else "; the carried reference is copied"))
-            elif carry:
-                rep("Z3", rel, q, "previous-iterate-is-a-copy", carry[0],
-                    f"`{norm(carry[0])}` keeps a reference to the array returned by `{norm(a.value)[:40]}`; scipy.integrate.ode.integrate returns its internal state "
-                    "buffer (the same object every call), so the 'previous' state is overwritten by the next step and the change is always zero",
-                    witness="dx/dt = k (no steady state): simulate_to_steady_state() reports success with x = k*200 at t = 200")
+            self.z1_names(rel, q, fn, rep)
         # fall-through is the failure value
         last = strip_docstring(fn.body)[-1]
         if isinstance(last, ast.Return) and norm(last.value) == "Result(NoSteadyState())":
@@ -115,6 +79,147 @@ class C15(Check):
         else:
             rep("Z1", rel, q, "fall-through-is-failure", last, f"after the step budget the method ends with `{norm(last)[:60]}` instead of the failure value",
                 witness="unbounded accumulation: the last iterate is presented as steady state")
+
+    def z1_names(self, rel, q, fn, rep) -> None:
+            # change measured between consecutive iterates
+            diffs = [s for s in walk_no_nested(fn) if isinstance(s, ast.Assign) and norm(s.targets[0]) == "diff"]
+            if diffs:
+                d = norm(diffs[0].value).replace(" ", "")
+                forms = ("(y2-y1)/y1ifrel_normelsey2-y1", "(y[-1]-y[-2])/y[-1]ifrel_normelsey[-1]-y[-2]")
+                if d in forms:
+                    self.holds("Z1", rel, q, "change-definition", diffs[0], f"diff = {norm(diffs[0].value)}")
+                else:
+                    rep("Z1", rel, q, "change-definition", diffs[0], f"`{norm(diffs[0].value)}` is not the change between the last two iterates (absolute / relative by flag)",
+                        witness="convergence is declared against the wrong reference state")
+            else:
+                self.undecided_ob("Z1", rel, q, "change-definition", fn, "definition of the change not recognised")
+            loops = [s for s in strip_docstring(fn.body) if isinstance(s, (ast.For, ast.While))] + \
+                    [s2 for s in strip_docstring(fn.body) if isinstance(s, ast.Try) for s2 in s.body if isinstance(s2, ast.For)]
+            if loops and "y1" in norm(fn):
+                adv = [s for s in loops[0].body if isinstance(s, ast.Assign) and norm(s) == "y1 = y2"]
+                stepped = [s for s in loops[0].body if isinstance(s, ast.AugAssign) and norm(s.target) == "t" and isinstance(s.op, ast.Add)]
+                if adv and stepped:
+                    self.holds("Z1", rel, q, "iterate-advanced", adv[0], "y1 := y2 and t += step every iteration")
+                else:
+                    rep("Z1", rel, q, "iterate-advanced", loops[0], "the reference iterate / the time is not advanced each step: convergence is tested against a stale state",
+                        witness="any model: the first small step relative to the INITIAL state never occurs, or the same time is integrated repeatedly")
+            # Z3: aliasing of the stepper's output buffer
+            COPY = ("np.array", "numpy.array", "np.copy", "copy.deepcopy", "copy.copy", "np.asarray_chkfinite", "list", "tuple")
+            cur_assign = [s for s in walk_no_nested(fn) if isinstance(s, ast.Assign) and isinstance(s.targets[0], ast.Name)
+                          and any(isinstance(c, ast.Call) and isinstance(c.func, ast.Attribute) and c.func.attr == "integrate" and not norm(c.func.value).startswith("self") for c in ast.walk(s.value))]
+            if cur_assign and "y1" in norm(fn):
+                a = cur_assign[0]
+                cur = a.targets[0].id
+                v = a.value
+                copied_at_source = isinstance(v, ast.Call) and (norm(v.func) in COPY or (isinstance(v.func, ast.Attribute) and v.func.attr == "copy"))
+                carry = [s for s in walk_no_nested(fn) if isinstance(s, ast.Assign) and isinstance(s.value, (ast.Name, ast.Call)) and isinstance(s.targets[0], ast.Name)
+                         and cur in {n.id for n in ast.walk(s.value) if isinstance(n, ast.Name)} and s is not a and s.targets[0].id != cur]
+                copied_at_carry = bool(carry) and all(isinstance(s.value, ast.Call) and (norm(s.value.func) in COPY or (isinstance(s.value.func, ast.Attribute) and s.value.func.attr == "copy")) for s in carry)
+                if copied_at_source or copied_at_carry:
+                    self.holds("Z3", rel, q, "previous-iterate-is-a-copy", a, f"`{norm(a)[:70]}`" + (" copies the stepper's output" if copied_at_source else "; the carried reference is copied"))
+                elif carry:
+                    rep("Z3", rel, q, "previous-iterate-is-a-copy", carry[0],
+                        f"`{norm(carry[0])}` keeps a reference to the array returned by `{norm(a.value)[:40]}`; scipy.integrate.ode.integrate returns its internal state "
+                        "buffer (the same object every call), so the 'previous' state is overwritten by the next step and the change is always zero",
+                        witness="dx/dt = k (no steady state): simulate_to_steady_state() reports success with x = k*200 at t = 200")
+
+    def z1_paths(self, rel, q, fn) -> None:
+        """Change definition, advance of the reference iterate and buffer aliasing, from the path summaries of two loop iterations
+        (locals and helper staging are substituted away, so only what is compared with what remains)."""
+        class TwoIter(SymInterp):
+            loop_unroll = 2
+
+        paths = [st for st, node in TwoIter().run_function(fn, Sym()).returns if any(e[0] == "return" and "TimeCourse(" in e[1] for e in st.events)]
+
+        def convergence(st):
+            """-> (current, previous, how) from the last `norm(D) < tolerance` decision on the path, or None."""
+            for c, pol in reversed(st.conds):
+                try:
+                    t = ast.parse(c, mode="eval").body
+                except SyntaxError:
+                    continue
+                if not (isinstance(t, ast.Compare) and len(t.ops) == 1 and isinstance(t.ops[0], (ast.Lt, ast.LtE)) and pol and norm(t.comparators[0]) == "tolerance"):
+                    continue
+                l = t.left
+                while isinstance(l, ast.Call) and norm(l.func) in ("float", "abs") and len(l.args) == 1:
+                    l = l.args[0]
+                if not (isinstance(l, ast.Call) and norm(l.func).endswith("norm") and l.args):
+                    return None
+                d = l.args[0]
+                rel_known = [p for cc, p in st.conds if cc == "rel_norm"]
+
+                def split(e):
+                    # absolute: X - Y ; relative: (X - Y) / Y
+                    if isinstance(e, ast.BinOp) and isinstance(e.op, ast.Sub):
+                        return norm(e.left), norm(e.right), None
+                    if isinstance(e, ast.BinOp) and isinstance(e.op, ast.Div) and isinstance(e.left, ast.BinOp) and isinstance(e.left.op, ast.Sub):
+                        return norm(e.left.left), norm(e.left.right), norm(e.right)
+                    return None
+                if isinstance(d, ast.IfExp) and norm(d.test) == "rel_norm":
+                    r_, a_ = split(d.body), split(d.orelse)
+                    if r_ and a_ and r_[2] is not None and a_[2] is None and r_[:2] == a_[:2]:
+                        return r_[0], r_[1], r_[2]
+                    return ("?", "?", norm(d))
+                sp = split(d)
+                if sp and rel_known:
+                    if rel_known[-1] and sp[2] is not None:
+                        return sp
+                    if not rel_known[-1] and sp[2] is None:
+                        return sp[0], sp[1], sp[1]
+                return ("?", "?", norm(d))
+            return None
+
+        convs = [(st, convergence(st)) for st in paths]
+        succ = [r for r in walk_no_nested(fn) if isinstance(r, ast.Return) and r.value is not None and "TimeCourse(" in norm(r.value)]
+        untested = [st for st, c in convs if c is None]
+        if convs and not untested:
+            self.holds("Z1", rel, q, "success-under-convergence-test", succ[0], "every path to the success return decides `norm(change) < tolerance` first")
+        else:
+            self.violated("Z1", rel, q, "success-under-convergence-test", succ[0],
+                          "a course is returned as steady state without the dominating test `norm(change) < tolerance`",
+                          witness="dx/dt = k (unbounded growth): simulate_to_steady_state() returns a state instead of NoSteadyState")
+            return
+        if not convs or any(c is None for _, c in convs):
+            self.undecided_ob("Z1", rel, q, "change-definition", fn, "definition of the change not recognised")
+            return
+        first = [c for st, c in convs if c[1] != "?" and ".integrate(" not in c[1]]
+        later = [c for st, c in convs if c[1] != "?" and ".integrate(" in c[1]]
+        bad = [c for _, c in convs if c[0] == "?" or c[2] != c[1] or ".integrate(" not in c[0] or c[0] == c[1]]
+        node = [n for n in ast.walk(fn) if isinstance(n, ast.Compare) and "tolerance" in norm(n)]
+        node = node[0] if node else fn
+        if bad:
+            c = bad[0]
+            self.violated("Z1", rel, q, "change-definition", node,
+                          f"the tested change `{c[2] if c[0] == '?' else c[0][:40] + ' - ' + c[1][:40]}` is not (current - previous) [/ previous when rel_norm] of the last two iterates",
+                          witness="convergence is declared against the wrong reference state")
+        else:
+            self.holds("Z1", rel, q, "change-definition", node, "norm((current - previous) / previous if rel_norm else current - previous) < tolerance")
+        # advance: in the second iteration the previous iterate is the first iteration's current one, and the time moved on
+        firsts_cur = {c[0] for c in first}
+        ok_adv = bool(first) and bool(later) and all(c[1] in firsts_cur and c[0] not in firsts_cur for c in later) \
+            and all("self.y0" in c[1] for c in first)
+        if not bad:
+            if ok_adv:
+                self.holds("Z1", rel, q, "iterate-advanced", node, "iteration k+1 compares against iteration k's state, integrated to a later time; iteration 1 against self.y0")
+            else:
+                self.violated("Z1", rel, q, "iterate-advanced", node, "the reference iterate / the time is not advanced each step: convergence is tested against a stale state",
+                              witness="any model: the first small step relative to the INITIAL state never occurs, or the same time is integrated repeatedly")
+        # Z3: the previous iterate must not be the stepper's own buffer: the stepper's output is copied where it is taken
+        COPY = ("np.array", "numpy.array", "np.copy", "copy.deepcopy", "copy.copy", "list", "tuple")
+        curs = {c[0] for _, c in convs if c[0] != "?"}
+        if curs:
+            def copied(txt: str) -> bool:
+                e = ast.parse(txt, mode="eval").body
+                return isinstance(e, ast.Call) and (norm(e.func) in COPY or (isinstance(e.func, ast.Attribute) and e.func.attr == "copy"))
+            prevs = {c[1] for c in later}
+            raw = [x for x in sorted(curs | prevs) if ".integrate(" in x and not copied(x)]
+            if not raw:
+                self.holds("Z3", rel, q, "previous-iterate-is-a-copy", node, "the stepper's output is copied before it is kept as the previous state")
+            else:
+                self.violated("Z3", rel, q, "previous-iterate-is-a-copy", node,
+                              f"`{raw[0][:60]}` keeps a reference to the array returned by the stepper; scipy.integrate.ode.integrate returns its internal state "
+                              "buffer (the same object every call), so the 'previous' state is overwritten by the next step and the change is always zero",
+                              witness="dx/dt = k (no steady state): simulate_to_steady_state() reports success with x = k*200 at t = 200")
 
     def z2(self) -> None:
         sim = self.prog.module(SIM)
